@@ -33,7 +33,9 @@ REGISTRY = dict(
           "every pending value to every writer it is not excluded from (regenerated tests) and clears the maps; character-level model of CSVOutputFormat.write (header rewrite, "
           "padding of every physical line) and an RFC-4180 reader: for every history of dumps - keys appearing, disappearing, re-appearing, any order oracle for new columns, strings "
           "with quotes/commas/spaces but no line break - the file reads back as the table of what was recorded; the reader inverts the printer for all tables. Refuted (vm_compute "
-          "witnesses, reproduced on the implementation): a value with a line break is corrupted when a later dump adds a column (F5); exclude='stdout' also hides from 'log' (F6). "
+          "witnesses, reproduced on the implementation): a value with a line break is corrupted when a later dump adds a column (F5, csv-multiline-value-corrupted-by-header-rewrite); "
+          "exclude='stdout' also hides from 'log' (F6, exclude-stdout-also-hides-from-log-file); a dump without any csv-visible value leaves a blank line that read_csv drops or the next "
+          "header rewrite overwrites / mis-pads (F13, csv-dump-without-values-misaligns-rows). "
           "Tie: fragment translator + byte-exact correspondence of progress.csv + per-writer key sets + read_csv/read_json oracle."),
     note=("Trusted: Coq 8.16.1 kernel (vm_compute, no native_compute), translate/py2coq.py + specs/logger.py, harness/c20.py, Python/numpy/pandas. "
           "Not verified: Python's str() of numbers (rendered text is an input of the CSV model), pandas' tokenizer and type inference (strings pandas would coerce - empty, NA-like, "
@@ -836,7 +838,7 @@ def main():
         "cells are compared numerically (numbers) or as exact strings (strings); absent = NaN",
         "a carriage return is treated as a line break (file opened in text mode with universal newlines); CR LF pairs are not generated",
         "dumps that carry no csv-visible value before the first csv column exists, or while the file ends with a single column, are not generated: the csv row is then a blank line "
-        "(dropped by read_csv) or is overwritten by / mis-padded at the next header rewrite - see the final report (candidate finding)",
+        "(dropped by read_csv) or is overwritten by / mis-padded at the next header rewrite: known finding F13 csv-dump-without-values-misaligns-rows, reproduced from two fixed corpus inputs",
         "Python's str() of numbers is an input of the CSV model (taken from the pending value, which is compared with the Logger model at 1e-9)",
         "a record() between record_mean() calls on the same key in one dump is not generated (the running count is kept, the documented mean then no longer applies)",
     ]
